@@ -126,6 +126,7 @@ func c02Clone(c *Ctx, p *Prog) {
 		}
 		key := "Clone:Config." + f.Name()
 		ok, found := true, false
+		okPer, perWhy := true, ""
 		eachInstr(fn, func(_ *ssa.BasicBlock, in ssa.Instruction) {
 			s, isSt := in.(*ssa.Store)
 			if !isSt {
@@ -138,6 +139,10 @@ func c02Clone(c *Ctx, p *Prog) {
 						found = true
 						if !freshOrNil(s.Val) {
 							ok = false
+						}
+						if shared := sharedAcrossIterations(fn, s); shared != "" {
+							okPer = false
+							perWhy = shared
 						}
 					}
 				}
@@ -162,6 +167,8 @@ func c02Clone(c *Ctx, p *Prog) {
 				}
 			}
 		})
+		c.Check(okPer, R, key+":per-element", site, "each element's "+f.Name()+" has its own backing array (allocated inside the copy loop, or capacity-limited)",
+			"the cloned elements' "+f.Name()+" slices are carved out of one buffer allocated outside the copy loop without limiting their capacity ("+perWhy+"): appending to one key's value in the clone (SetConfig with a longer value) overwrites the bytes of the following keys")
 		// appends of whole elements
 		c.Check(found && ok, R, key, site, "each cloned Config element gets a fresh "+f.Name(), "cloned Config elements share their "+f.Name()+" with the original (element copied wholesale, or the field assigned from the original's slice): the clone's configuration changes as reading continues")
 	}
@@ -749,4 +756,33 @@ func c02Labels(c *Ctx, p *Prog) {
 		c.Check(guarded, R, fmt.Sprintf("Files.init:relabel#%d", nDis), p.pos(st.Pos()), "relabelling happens only for inputs without an explicit label", "the disambiguation loop overwrites the label of an input whose label the user gave explicitly")
 	})
 	c.Floor(R, "relabelling stores in Files.init", nDis, 1)
+}
+
+// sharedAcrossIterations: a store inside a loop of a slice whose backing array was allocated outside that loop, without
+// a capacity limit (three-index slice): successive iterations hand out overlapping capacity.
+func sharedAcrossIterations(fn *ssa.Function, st *ssa.Store) string {
+	var inner *loopInfo
+	for _, lp := range naturalLoops(fn) {
+		if lp.Blocks[st.Block()] && (inner == nil || len(lp.Blocks) < len(inner.Blocks)) {
+			inner = lp
+		}
+	}
+	if inner == nil {
+		return ""
+	}
+	if sl, ok := stripConv(st.Val).(*ssa.Slice); ok && sl.Max != nil {
+		return ""
+	}
+	if _, ok := st.Val.Type().Underlying().(*types.Slice); !ok {
+		return ""
+	}
+	for _, r := range rootsOf(st.Val) {
+		if r.Kind != rkLocal {
+			continue
+		}
+		if in, ok := r.Val.(ssa.Instruction); ok && !inner.Blocks[in.Block()] {
+			return "backing array " + r.String() + " is allocated before the loop"
+		}
+	}
+	return ""
 }
